@@ -305,9 +305,11 @@ theorem round_start_facts {V} {F : Key → Nat} (ops : ValOps V) (r : Runner V) 
   rw [← e2] at hnv
   have hjust := getReady_justified ops hd _ v1 v2 rank hrank n v hnv
   obtain ⟨c, hc, ht, hgv⟩ := getReady_src ops _ n v hnv
-  obtain ⟨t0, _, _, t2⟩ := triggered_unpack c ht
+  obtain ⟨t0, _, t1, t2⟩ := triggered_unpack c ht
+  have t1w : ∀ p, (p, Dep.waiting) ∉ c.ctrl := fun p hm => by have := t1 p _ hm; simp [pendC] at this
   have dkeys := chan_data_keys r hd _ v2 n c hc
-  refine ⟨hjust.2.1, fun p hp => ?_, c.values, v1.vnd n c hc, fun p w => ⟨fun hw => v1.val n c hc p w hw, fun ⟨hm, hr'⟩ => ?_⟩, ?_⟩
+  have ckeys := chan_ctrl_keys r hd _ v2 v1.nd n c hc
+  refine ⟨hjust.2.1, fun p hp => ?_, fun p hp => ?_, c.values, v1.vnd n c hc, fun p w => ⟨fun hw => v1.val n c hc p w hw, fun ⟨hm, hr'⟩ => ?_⟩, ?_⟩
   · obtain ⟨b, hb⟩ := exists_of_mem_akeys _ _ ((dkeys p).mp hp)
     have hbt : b = true := by
       have := t2 p b hb
@@ -316,6 +318,16 @@ theorem round_start_facts {V} {F : Key → Nat} (ops : ValOps V) (r : Runner V) 
     rcases v1.dat n c hc p hb with h' | h'
     · exact Or.inl h'
     · exact Or.inr (skOf_skippedS hd _ v1 v2 hHC rank hrank p h')
+  · obtain ⟨d, hdm⟩ := exists_of_mem_akeys _ _ ((ckeys p).mp hp)
+    cases d with
+    | waiting => exact absurd hdm (t1w p)
+    | ready =>
+      obtain ⟨o, ho, _⟩ := v1.rdy n c hc p hdm
+      exact Or.inl ⟨o, ho⟩
+    | skipped =>
+      rcases v1.skp n c hc p hdm with h' | ⟨o, ho, _⟩
+      · exact Or.inr (skOf_skippedS hd _ v1 v2 hHC rank hrank p h')
+      · exact Or.inl ⟨o, ho⟩
   · rcases rv2 p w n hm hr' c hc with h' | h' | h'
     · omega
     · rw [t0] at h'; cases h'
